@@ -1000,12 +1000,16 @@ def run(ctx):
     guard_ok = part_guard(ctx, rec, wb, drv, 6 if quick else 60)
     ctx.log("histories")
     hist_ok = part_history(ctx, rec, exe, 8 if quick else 48)
+    ctx.log("many parameters / shrinking grids")
+    import c02_history
+    c02_history.part_many_params(ctx, rec, exe, check_common, bounds, 10 if quick else 48)
+    shrink_ok = c02_history.part_shrinking_history(ctx, rec, exe, check_common, 6 if quick else 30)
     ctx.log("several frequencies")
     mf_ok = part_multifreq(ctx, rec, exe, wb, 8 if quick else 60)
     ctx.log("dispatch")
     disp_ok = part_dispatch(ctx, rec, wb, drv, 1 if quick else 6)
     ctx.log("done")
-    for name, okx in (("tie:lm_kernel_pass_vs_AutoKernelModel", kern_ok), ("tie:writeback_exact", hist_ok), ("tie:initial_parameter_vector", mf_ok), ("tie:solver_dispatch", disp_ok),
+    for name, okx in (("tie:lm_kernel_pass_vs_AutoKernelModel", kern_ok), ("tie:writeback_exact", hist_ok), ("tie:writeback_exact(shrinking grids)", shrink_ok), ("tie:initial_parameter_vector", mf_ok), ("tie:solver_dispatch", disp_ok),
                       ("tie:update_s_matrices_vs_GuardModel", guard_ok)):
         if not okx and not ctx.violations:
             ctx.unproved(name, "correspondence failed", "scenarios of this run")
